@@ -1036,7 +1036,7 @@ func (w *c02World) drift(tag string, o c02Op) {
 
 // ------------------------------------------------------------------ settle phase (C08 2, 3)
 
-const c08Rounds = 40
+const c08Rounds = 60
 
 // c08Settle: faults off, cached vSwitch blocks expired, one forced full sync, then
 // healthy rounds until three consecutive reconciles neither mutate the cloud nor write the
